@@ -90,7 +90,13 @@ def gen_one(rng):
         for s in sc["strategies"]:
             s["listener_kwargs"] = dict(lk)
     sc["dyadic"] = dyadic
-    if rng.random() < 0.08:
+    if rng.random() < 0.15:
+        # a strategy reads the wall clock through SimulatedDateTime.real_time(); in half of these an exception leaves the
+        # block (contained by the framework): the simulated clock must be back for every later callback
+        sc["strategies"][0]["reads_wall_clock"] = True
+        if rng.random() < 0.5:
+            sc["inject"] = {"strategy": sc["strategies"][0]["name"], "kind": rng.choice(["check", "book"]), "nth": rng.randint(1, 5), "in_real_time": True}
+    elif rng.random() < 0.08:
         sc["cfg"]["raise_errors"] = True
         sc["inject"] = {"strategy": sc["strategies"][0]["name"], "kind": "book", "nth": rng.randint(1, 6), "expect_abort": True}
     return sc
